@@ -161,11 +161,18 @@ func runC09(c *Ctx) {
 		c.Check("C09.V", "app:reply-header-from-stored-request", p, rh.Pos(), ok, "the App Engine proxy asserts the stored request's User", "the App Engine proxy's fetch reply does not carry the User of the request read from the store")
 	}
 	if ph := c.need(p, "C09.V", "app.proxyHandler"); ph != nil {
-		if pr := c.UniqueCall("C09.V", p, ph, false, ModPath+"/app.postRequest"); pr != nil {
+		if p.Func("app.postRequest") == nil {
+			// postRequest inlined: proxyHandler builds the stored request itself
+			if nr := c.UniqueCall("C09.V", p, ph, false, ModPath+"/app/types.NewRequest"); nr != nil {
+				c.ArgIs("C09.V", "app:stored-user-is-signed-in-user", p, nr, 2, "the stored user is the App Engine signed-in user", "result:google.golang.org/appengine/v2/user.Current.Email")
+				c.OK("C09.V", "app:postRequest→NewRequest:user-role", p, nr.Pos(), "postRequest was inlined: the user is passed to types.NewRequest directly")
+			}
+		} else if pr := c.UniqueCall("C09.V", p, ph, false, ModPath+"/app.postRequest"); pr != nil {
 			c.ArgIs("C09.V", "app:stored-user-is-signed-in-user", p, pr, 4, "the stored user is the App Engine signed-in user", "result:google.golang.org/appengine/v2/user.Current.Email")
 		}
 	}
-	if po := c.need(p, "C09.V", "app.postRequest"); po != nil {
+	if p.Func("app.postRequest") == nil {
+	} else if po := c.need(p, "C09.V", "app.postRequest"); po != nil {
 		if nr := c.UniqueCall("C09.V", p, po, false, ModPath+"/app/types.NewRequest"); nr != nil {
 			c.ArgIs("C09.V", "app:postRequest→NewRequest:user-role", p, nr, 2, "user e-mail role", P(po, 4))
 		}
